@@ -81,7 +81,7 @@ def flatten(levels, i, reading='late'):
 
     def ren(e, j, bound):
         k = e[0]
-        if k in ('lit', 're'):
+        if k in ('lit', 're', 'liti'):
             if in_force(j) and not native and not (k == 'lit' and e[1] == ''):
                 return ['left', e, ['ref', ig_name(j)]]
             return e
